@@ -30,6 +30,10 @@ Oracle on (outcome o of Relay.attempt, L):
            transient; unroutable => permanent; per recipient for RCPT_i / LMTP end-of-data_i replies.
  COMPLETE  on single-fault scripts whose fault concerns another recipient only, or only QUIT / RSET / a
            refused optional STARTTLS / the idle connection: a recipient in L is reported delivered.
+ USABLE    every relay error (raised or per recipient) carries a .reply that is a Reply with a 3-digit str code and
+           a str message, and what the Queue / Bounce do with it does not raise: bytes(reply), str(reply),
+           reply.message + str, reply == copy, Bounce(envelope, reply).flatten(); a Reply returned as success
+           likewise (without the bounce).  Mechanism unusable-result/<relay>/<what raises>.   (all scripts)
 Every violation seen in a concurrent batch is re-executed alone; only what the isolated run shows is reported
 (the batch is a screen), so verdicts never depend on how busy the hub was.
 
@@ -84,6 +88,7 @@ from slimta.relay.http import HttpRelay
 from slimta.util.dns import DNSResolver
 from slimta.smtp.reply import Reply
 from slimta.envelope import Envelope
+from slimta.bounce import Bounce
 
 PROPERTY = 'C11'
 LEVEL = 'fault_enumeration'
@@ -132,7 +137,7 @@ ASSUMPTIONS = ['the Downstream / stub / HTTP-server logs are the truth about wha
 REQUIRED_HITS = ['smtp-attempt-judged', 'lmtp-attempt-judged', 'pipe-attempt-judged', 'http-attempt-judged',
                  'mx-attempt-judged', 'delivered-vs-accepted-compared', 'class-judged', 'complete-judged',
                  'watchdog-armed', 'mx-host-choice-checked', 'reuse-second-message-judged',
-                 'tls-negotiated-downstream',
+                 'tls-negotiated-downstream', 'usable-result-checked', 'stratum/http-reply-header-shape',
                  # audit strata (each decides CLASS / SAFETY / TYPE for a behaviour the first table lacked)
                  'stratum/tcp-reset-by-next-hop', 'stratum/positive-reply-variant', 'stratum/multi-line-reply',
                  'stratum/segmented-reply', 'stratum/tls-handshake-failure', 'stratum/tls-immediately',
@@ -244,6 +249,48 @@ def _norm_value(v):
     return {'v': 'bad-value', 'type': type(v).__name__, 'repr': repr(v)[:200]}
 
 
+def _unusable(v, env):
+    """USABLE clause: what the Queue and Bounce do with a relay result must not raise.  v is a RelayError (its
+    .reply is used for the retry note / the bounce) or a Reply returned as success.  -> None | short description."""
+    if isinstance(v, RelayError):
+        if not hasattr(v, 'reply'):
+            return 'error-without-reply-attribute'
+        reply = v.reply
+    else:
+        reply = v
+    if not isinstance(reply, Reply):
+        return 'reply-is-a-%s' % type(reply).__name__
+    if not (isinstance(reply.code, str) and re.match(r'^\d\d\d$', reply.code)):
+        return 'reply.code-is-%s' % (type(reply.code).__name__ if not isinstance(reply.code, str) else 'not-3-digits')
+    if not isinstance(reply.message, str):
+        return 'reply.message-is-%s' % type(reply.message).__name__
+    uses = [('bytes(reply)', lambda: bytes(reply)), ('str(reply)', lambda: str(reply)),
+            ('reply.message+str', lambda: reply.message + ' (Too many retries)'),
+            ('reply==copy', lambda: reply == Reply().copy(reply))]
+    if isinstance(v, RelayError):
+        uses.append(('Bounce(envelope,reply)', lambda: Bounce(env, reply).flatten()))
+    for name, fn in uses:
+        try:
+            fn()
+        except Exception as e:
+            return '%s->%s' % (name, type(e).__name__)
+    return None
+
+
+def _usability(values, env):
+    out = []
+    for who, v in values:
+        if isinstance(v, (RelayError, Reply)):
+            try:
+                u = _unusable(v, env)
+            except Exception as e:          # the probe itself must never decide anything
+                u = None
+            if u:
+                out.append({'who': who, 'what': u, 'value': repr(v)[:160],
+                            'reply': repr(getattr(v, 'reply', v))[:160]})
+    return out
+
+
 def run_attempt(relay, env, attempts, timeout):
     """One Relay.attempt under the hub-ordered watchdog; returns the normalised outcome."""
     out = {}
@@ -269,7 +316,7 @@ def run_attempt(relay, env, attempts, timeout):
         n = _norm_value(e)
         if n['v'] in ('P', 'T'):
             return {'end': 'raised', 'type': n['type'], 'repr': n['repr'], 'reply': n['reply'],
-                    'per': {r: n for r in rcpts}}
+                    'per': {r: n for r in rcpts}, 'unusable': _usability([('raised', e)], env)}
         return {'end': 'raised-other', 'type': type(e).__name__, 'repr': repr(e)[:300], 'per': {}}
     ret = out.get('ret')
     if isinstance(ret, RelayError) or isinstance(ret, BaseException):
@@ -277,15 +324,18 @@ def run_attempt(relay, env, attempts, timeout):
         return {'end': 'returned-error-object', 'type': n['type'], 'repr': n.get('repr'), 'cls': n['v'], 'per': {}}
     if ret is None or isinstance(ret, Reply):
         n = _norm_value(ret)
-        return {'end': 'returned', 'shape': n['type'], 'per': {r: n for r in rcpts}}
+        return {'end': 'returned', 'shape': n['type'], 'per': {r: n for r in rcpts},
+                'unusable': _usability([('returned', ret)], env)}
     if isinstance(ret, collections.abc.Mapping):
         per = {r: _norm_value(ret[r]) for r in rcpts if r in ret}
         return {'end': 'returned', 'shape': 'mapping', 'per': per,
+                'unusable': _usability([(r, ret[r]) for r in rcpts if r in ret], env),
                 'missing': [r for r in rcpts if r not in ret],
                 'extra': [repr(k)[:60] for k in ret if k not in rcpts]}
     if isinstance(ret, collections.abc.Sequence) and not isinstance(ret, (str, bytes)):
         per = {r: _norm_value(v) for r, v in zip(rcpts, ret)}
-        return {'end': 'returned', 'shape': 'sequence', 'per': per, 'missing': rcpts[len(ret):]}
+        return {'end': 'returned', 'shape': 'sequence', 'per': per, 'missing': rcpts[len(ret):],
+                'unusable': _usability(list(zip(rcpts, ret)), env)}
     return {'end': 'returned-bad-type', 'type': type(ret).__name__, 'repr': repr(ret)[:200], 'per': {}}
 
 
@@ -1097,7 +1147,9 @@ def _http_handler(sock, addr):
             if kind == 'respond':
                 status, reason, hv = act[1], act[2], act[3]
                 out = ('HTTP/1.1 %d %s\r\n' % (status, reason)).encode()
-                if hv is not None:
+                if isinstance(hv, (list, tuple)):       # literal header lines
+                    out += b''.join(h + b'\r\n' for h in hv)
+                elif hv is not None:
                     out += b'X-Smtp-Reply: ' + hv + b'\r\n'
                 rbody = b'' if status == 204 else b'ok\n'
                 if status != 204:
@@ -1188,6 +1240,28 @@ HTTP_CONN_FAULTS = collections.OrderedDict([
 ])
 
 
+# audit: X-Smtp-Reply value shapes.  name -> (header value | list of literal header lines, expectation on an error
+# status: 'P' / 'T' where the value starts with a well-formed '<code>;', else 'F')
+HDR_SHAPES = collections.OrderedDict([
+    ('550-code-only', (b'550', 'F')),
+    ('550-code-and-semicolon', (b'550;', 'P')),
+    ('451-unquoted-message', (b'451; message=4.3.0 try later', 'T')),
+    ('550-command-only', (b'550; command="RCPT"', 'P')),
+    ('550-message-last', (b'550; command="RCPT"; message="5.1.1 no such user"', 'P')),
+    ('450-message-first', (b'450; message="4.2.0 later"; command="DATA"', 'T')),
+    ('450-extra-parameters', (b'450; message="4.2.0 later"; foo="bar"; retry="60"', 'T')),
+    ('550-empty-message', (b'550; message=""', 'P')),
+    ('450-very-long-message', (b'450; message="4.2.0 ' + b'x' * 4000 + b'"', 'T')),
+    ('550-non-ascii-message', (b'550; message="5.2.2 bo\xeete pleine"', 'P')),
+    ('550-no-space-before-parameter', (b'550;message="5.1.1 no such user"', 'P')),
+    ('550-upper-case-parameter-names', (b'550; MESSAGE="5.1.1 no such user"; COMMAND="RCPT"', 'P')),
+    ('550-lower-case-header-name', ([b'x-smtp-reply: 550; message="5.1.1 no such user"'], 'P')),
+    ('two-headers-550-then-450', ([b'X-Smtp-Reply: 550; message="5.1.1 no"', b'X-Smtp-Reply: 450; message="4.2.0 later"'],
+                                  'F')),
+    ('250-code-and-semicolon', (b'250;', 'F')),
+])
+
+
 def expect_http(status, hdr):
     ok = 200 <= status < 300
     if ok:
@@ -1218,6 +1292,14 @@ def gen_http_all():
             cases.append({'kind': 'http', 'stage': 'status%d' % status, 'outcome': 'hdr-' + hdr, 'nrcpt': 1,
                           'script': [['respond', status, REASONS[status], HDRS[hdr]]], 'expect': [e],
                           'single': True, 'reuse': None})
+    # X-Smtp-Reply value shapes x status class (on 2xx: delivered; a 4xx/5xx code in the header is ambiguous there)
+    for status in (200, 404, 503):
+        for name, (hv, e) in HDR_SHAPES.items():
+            if 200 <= status < 300:
+                e = 'D' if name.startswith('250') else '?'
+            cases.append({'kind': 'http', 'stage': 'status%d' % status, 'outcome': 'hdrshape-' + name, 'nrcpt': 1,
+                          'script': [['respond', status, REASONS[status], hv]], 'expect': [e], 'single': True,
+                          'reuse': None})
     # an interim 100 Continue before the final response
     for status, hdr, e in ((200, '250', 'D'), (503, '450', 'T'), (500, '550', 'P')):
         raw = (b'HTTP/1.1 100 Continue\r\n\r\n' + ('HTTP/1.1 %d %s\r\n' % (status, REASONS[status])).encode() +
@@ -1693,6 +1775,11 @@ def judge(case, obs, R=None):
             V.append((classify('type', case, m), what + ' [%s]' % tag, wit))
             continue
         per = res['per']
+        hit('usable-result-checked')
+        for u in res.get('unusable') or ():
+            V.append(('unusable-result/%s/%s' % (k, u['what']),
+                      'the result for %s cannot be used by the queue: %s (value %s, reply %s) [%s]'
+                      % (u['who'], u['what'], u['value'], u['reply'], tag), wit))
         if res.get('missing'):
             V.append((classify('type', case, m, 'mapping-misses-recipient'),
                       'result mapping has no entry for %s [%s]' % (res['missing'], tag), wit))
@@ -1862,6 +1949,8 @@ def strata(case, obs):
             out.append('http-3xx-status')
         if st.startswith('interim100'):
             out.append('http-interim-100')
+        if oc.startswith('hdrshape-') and obs['log']['requests'] and obs['log']['requests'][0]['responded']:
+            out.append('http-reply-header-shape')
         if 'reset' in oc:
             out.append('tcp-reset-by-next-hop')
     elif kind == 'pipe':
